@@ -28,6 +28,10 @@
 #define SENT		((T) 85)
 
 static SF_PRIVATE g_psf [2] ;
+#ifdef CODEC_DATA_TYPE
+static CODEC_DATA_TYPE g_cd [2] ;	/* typed codec state (R9): what X_open allocates with calloc */
+static const CODEC_DATA_TYPE g_cd_zero ;
+#endif
 
 static void
 setup (SF_PRIVATE *psf, int fd)
@@ -43,6 +47,10 @@ setup (SF_PRIVATE *psf, int fd)
 	psf->norm_double = SF_TRUE ;
 	psf->dataoffset = 0 ;
 	psf->filelength = mf [fd].len ;
+#ifdef CODEC_DATA_TYPE
+	g_cd [fd] = g_cd_zero ;
+	psf->codec_data = &g_cd [fd] ;
+#endif
 	rc = CODEC_INIT (psf) ;
 	VASSERT (rc == 0, "codec init accepts the configuration") ;
 	VASSERT (RD (psf) != NULL && WR (psf) != NULL, "codec installs read and write entry points") ;
@@ -131,6 +139,9 @@ main (void)
 		/* C01: read back with the same type */
 		a->filelength = mf [0].len ;
 		mf [0].pos = 0 ;
+#ifdef CODEC_DATA_TYPE
+		g_cd [0] = g_cd_zero ;		/* a fresh open starts from the codec's initial state */
+#endif
 		for (k = 0 ; k < LMAX + GUARD ; k++) back [k] = SENT ;
 		r = RD (a) (a, back, nd_len) ;
 		VASSERT (r == nd_len, "round trip: all items come back") ;
